@@ -47,6 +47,9 @@ def cache_flow(ctx: Ctx) -> RuleResult:
                     M, how = dotted(b.targets[0].value), "item assignment"
         if isinstance(n, ast.Call) and isinstance(n.func, ast.Attribute) and n.func.attr == "update" and n.args and dotted(n.args[0]) == var:
             M, how = dotted(n.func.value), "update"
+    merge = _display_merge(f, var)
+    if M is None and merge is not None:
+        M, how = merge["target"], "dict display merge"
     r.ob(M is not None, {"entries written into": M, "by": how})
     if M is None:
         r.violate(f"{f.short}: the unpickled mapping is not merged, entry by entry, into a results map", f.loc(ld),
@@ -98,6 +101,22 @@ def cache_flow(ctx: Ctx) -> RuleResult:
     return r
 
 
+def _display_merge(f: FuncInfo, var: str) -> Optional[dict]:
+    """X = [StrictDict|dict]({**A, **B}) or A | B where one operand is the loaded mapping: {'target', 'cached_last', 'node'}."""
+    for n in iter_own_nodes(f.node):
+        if isinstance(n, ast.Assign) and isinstance(n.targets[0], ast.Name):
+            v = n.value
+            if isinstance(v, ast.Call) and dotted(v.func) in ("StrictDict", "dict") and len(v.args) == 1:
+                v = v.args[0]
+            if isinstance(v, ast.Dict) and v.keys and all(k is None for k in v.keys) and len(v.values) >= 2:
+                names = [dotted(x) for x in v.values]
+                if var in names:
+                    return {"target": n.targets[0].id, "cached_last": names[-1] == var, "node": n}
+            if isinstance(v, ast.BinOp) and isinstance(v.op, ast.BitOr) and var in (dotted(v.left), dotted(v.right)):
+                return {"target": n.targets[0].id, "cached_last": dotted(v.right) == var, "node": n}
+    return None
+
+
 def cache_priority(ctx: Ctx) -> RuleResult:
     """Cached entries override what the results already hold (defaults, constants)."""
     r = RuleResult("CACHE-PRIORITY")
@@ -105,6 +124,15 @@ def cache_priority(ctx: Ctx) -> RuleResult:
     r.require(len(hits) == 1, "pickle.load site not found")
     f, ld = hits[0]
     var = dotted(ld.targets[0])
+    merge = _display_merge(f, var)
+    if merge is not None:
+        ok = merge["cached_last"]
+        r.ob(ok, {"merge": norm_src(merge["node"]), "cached entries last (they win)": ok})
+        if not ok:
+            r.violate(f"{f.short}: in the merge the values already present win over the cached ones", f.loc(merge["node"]),
+                      "defaults / constants already in the results shadow the cached values: the restart mixes the default input with "
+                      "results cached for another argument", norm_src(merge["node"]))
+        return r
     writes = []
     for n in iter_own_nodes(f.node):
         if isinstance(n, ast.For) and isinstance(n.iter, ast.Call) and isinstance(n.iter.func, ast.Attribute) \
